@@ -11,11 +11,26 @@ Local Open Scope string_scope.
 
 Definition gen_row := (string * (bool * list (string * string)))%type.
 
-Definition known_type (t : string) : bool := existsb (fun r => String.eqb (c_type r) t) SPEC_TABLE.
+Definition spec_row (t : string) : option crow := find (fun r => String.eqb (c_type r) t) SPEC_TABLE.
+Definition known_type (t : string) : bool := match spec_row t with Some _ => true | None => false end.
 Definition walk_row (row : gen_row) : crow :=
   {| c_type := fst row; c_acc := AWalk; c_dedicated := []; c_paths := snd (snd row) |}.
+(* the row of a class of the live schema:
+   - a known class with an accessor OVERRIDE keeps its hand-written row (its document-capable paths are pinned: the override reads
+     particular fields, a path it does not read would hide documents);
+   - a known class read by the inherited WALK takes its paths from the live schema (the walk visits every field: a property added
+     upstream to such a class, typed as a document or as a generic object, is searched like the others);
+   - a class modelled since is a walking row. *)
+Definition full_row (row : gen_row) : crow :=
+  match spec_row (fst row) with
+  | Some r => match c_acc r with
+              | AWalk => {| c_type := c_type r; c_acc := AWalk; c_dedicated := c_dedicated r; c_paths := snd (snd row) |}
+              | _ => r
+              end
+  | None => walk_row row
+  end.
 Definition EXTRA_ROWS : list gen_row := filter (fun row => negb (known_type (fst row))) PdPaths.PD_TABLE.
-Definition FULL_TABLE : list crow := SPEC_TABLE ++ map walk_row EXTRA_ROWS.
+Definition FULL_TABLE : list crow := map full_row PdPaths.PD_TABLE.
 
 Definition find_row_full (t : str) : option crow := find (fun r => str_eqb (of_string (c_type r)) t) FULL_TABLE.
 
@@ -27,8 +42,6 @@ Fixpoint pairs_eqb (a b : list (string * string)) : bool :=
   | x :: a', y :: b' => pair_eqb x y && pairs_eqb a' b'
   | _, _ => false
   end.
-Definition row_eqb (a b : gen_row) : bool :=
-  String.eqb (fst a) (fst b) && Bool.eqb (fst (snd a)) (fst (snd b)) && pairs_eqb (snd (snd a)) (snd (snd b)).
 
 Lemma pair_eqb_eq a b : pair_eqb a b = true -> a = b.
 Proof.
@@ -40,16 +53,10 @@ Proof.
   induction a as [|x a IH]; intros [|y b] H; simpl in H; try discriminate; [reflexivity|].
   apply andb_true_iff in H. destruct H as [H1 H2]. apply pair_eqb_eq in H1. apply IH in H2. subst. reflexivity.
 Qed.
-Lemma row_eqb_eq a b : row_eqb a b = true -> a = b.
-Proof.
-  destruct a as [t [o p]], b as [t' [o' p']]. unfold row_eqb. simpl. intros H.
-  apply andb_true_iff in H. destruct H as [H H3]. apply andb_true_iff in H. destruct H as [H1 H2].
-  apply String.eqb_eq in H1. apply Bool.eqb_prop in H2. apply pairs_eqb_eq in H3. subst. reflexivity.
-Qed.
 
-(* a hand-written row and a generated row describe the same class: same type string, same document-capable paths, same override
-   flag -- except that for a class with NO document-capable path the flag is immaterial (an override that skips the walk of such a
-   class finds what the walk finds: nothing; what it returns is tied by the correspondence check of the class) *)
+(* a row describes a generated row: same type string, same document-capable paths, same override flag -- except that for a class
+   with NO document-capable path the flag is immaterial (an override that skips the walk of such a class finds what the walk finds:
+   nothing; what it returns is tied by the correspondence check of the class) *)
 Definition no_paths (r : crow) : bool := match c_paths r with [] => true | _ => false end.
 Definition row_compat (r : crow) (row : gen_row) : bool :=
   String.eqb (c_type r) (fst row) && pairs_eqb (c_paths r) (snd (snd row)) &&
